@@ -247,6 +247,14 @@ async fn run_history(self_id: u8, evs: &[Ev]) -> RunOut {
                 if out.stuck {
                     break;
                 }
+                // the node talks to the peers it knows of (replication, repair, gossip all go
+                // through the shared network's cached channels), so a peer that leaves later
+                // leaves with a channel to it in the cache
+                for (i, a, _) in s {
+                    if *i != self_id {
+                        let _ = network.get_or_connect(addr_of(*a));
+                    }
+                }
             },
             Ev::Sub => stream = Some(handle.membership_changes()),
             Ev::Read => {
@@ -307,7 +315,49 @@ fn well_shaped(evs: &[Ev]) -> bool {
         && !evs.iter().take_while(|e| **e != Ev::Sub).any(|e| *e == Ev::Read)
 }
 
+/// The history being run, for the watchdog: a watcher that blocks its thread (a lock it never
+/// gets) blocks the whole single-threaded runtime, which no in-runtime timeout can see.
+static CURRENT: std::sync::Mutex<(u64, String)> = std::sync::Mutex::new((0, String::new()));
+
+fn start_watchdog() {
+    std::thread::spawn(|| {
+        let mut last = 0u64;
+        let mut same = 0u32;
+        loop {
+            std::thread::sleep(std::time::Duration::from_millis(500));
+            let (seq, case) = CURRENT.lock().unwrap().clone();
+            if case.is_empty() {
+                // between histories (or in another family of cases)
+                same = 0;
+                continue;
+            }
+            if seq == last && seq != 0 {
+                same += 1;
+            } else {
+                same = 0;
+                last = seq;
+            }
+            if same >= 40 {
+                println!("HXHANG the executor made no progress for 20 s inside history: {case}");
+                std::process::exit(3);
+            }
+        }
+    });
+}
+
 fn do_run(rt: &tokio::runtime::Runtime, w: &mut CaseWriter, self_id: u8, evs: &[Ev]) {
+    struct Idle;
+    impl Drop for Idle {
+        fn drop(&mut self) {
+            CURRENT.lock().unwrap().1.clear();
+        }
+    }
+    {
+        let mut cur = CURRENT.lock().unwrap();
+        cur.0 += 1;
+        cur.1 = case_line(self_id, evs);
+    }
+    let _idle = Idle;
     let case = case_line(self_id, evs);
     if !well_shaped(evs) {
         w.case(&case, "?bad-case");
@@ -978,6 +1028,7 @@ fn parse_case(line: &str) -> Option<(String, u8, Vec<Ev>)> {
 }
 
 fn main() {
+    start_watchdog();
     quiet_panics();
     let args = Args::parse();
     let mut rng = Rng::new(args.seed);
